@@ -10,7 +10,8 @@ Cases == ndJsonDeserialize(IOEnv.OBS)
 
 VARIABLE c
 OInit == c = 1
-Verdict(x) == [id |-> x.id, valid |-> Valid(x.prog, x.org, x.lay),
+\* definite: the program has a definite outcome by the manual (PassLayout!ScopeSafe); only then is `valid` a verdict
+Verdict(x) == [id |-> x.id, valid |-> Valid(x.prog, x.org, x.lay), definite |-> ScopeSafe(x.prog),
                problems |-> IF Len(x.lay) # Len(x.prog) THEN {<<0, "length">>}
                             ELSE UNION {{<<j, q>> : q \in Problems(x.prog, x.org, x.lay, j)} : j \in 1..Len(x.prog)}]
 ONext == /\ c <= Len(Cases)
